@@ -126,13 +126,114 @@ Theorem C10_table_empty_when_all_finished : forall cfg t0 evs, wf_from 0 evs = t
 Proof. exact table_empty_when_all_finished. Qed.
 Print Assumptions C10_table_empty_when_all_finished.
 
-(* The client layer (proxies, _StreamResultIterator objects: what the harness drives) only acts on the
-   daemon through server events: the server state after any list of client operations is the state after the
-   event history those operations issued — so all theorems above cover every client-level history. *)
-Theorem C10_client_histories_are_server_histories : forall cfg ops cs,
-  srv (fst (fst (crun cfg cs ops))) = fst (run cfg (srv cs) (snd (crun cfg cs ops))).
+(* ------------------------------------------------------------------ client side ------------------------------------------------------------------
+   [cafter pol cfg t0 n ops]: n proxies, the arbitrary list ops of client operations (open a stream, next() on a
+   stream object, next() hit by a transport failure, close(), release / reconnect of a proxy, housekeeping, clock
+   ticks) run from the start.  [copened tr] are the item lists of the streams the client was handed, by handle
+   number; [taken tr h] the items the daemon handed out for client stream h, [received tr h] those that arrived.
+   [no_raw]: streams are only used through their own iterator object (ids are unguessable).
+   [gen_policy] is the except-clause of _StreamResultIterator.__next__ as extracted from client.py on this run. *)
+
+(* The client layer acts on the daemon only through server events: the daemon's state after any list of client
+   operations is the state after the event history they issued (with the same answers) — so every theorem
+   above applies to every client-level history. *)
+Theorem C10_client_histories_are_server_histories : forall pol cfg ops cs,
+  run cfg (srv cs) (map fst (s_trace (crun pol cfg cs ops))) =
+  (srv (c_state (crun pol cfg cs ops)), s_trace (crun pol cfg cs ops)).
 Proof. exact crun_refines. Qed.
 Print Assumptions C10_client_histories_are_server_histories.
+
+(* __next__ drops its proxy reference (ends for good) on StopIteration and on nothing else *)
+Theorem C10_next_drops_proxy_only_on_stop :
+  drop_stop gen_policy = true /\ drop_raised gen_policy = false /\ drop_error gen_policy = false /\ drop_comm gen_policy = false.
+Proof. vm_compute. auto. Qed.
+Print Assumptions C10_next_drops_proxy_only_on_stop.
+
+(* Each client stream is handed exactly the items of its own stream, in order, each once: what the daemon handed out
+   for handle h is a prefix of the item list that was opened as handle h (never of another one). *)
+Theorem C10_client_items_exact : forall pol cfg t0 n ops h items, no_raw ops = true ->
+  let R := crun pol cfg (cinit t0 n) ops in
+  nth_error (copened (c_trace R)) (N.to_nat h) = Some items ->
+  exists suffix, items = yields (taken (c_trace R) h) ++ suffix.
+Proof. exact client_items_exact. Qed.
+Print Assumptions C10_client_items_exact.
+
+(* ... and unless the reply to one of its own next() calls was lost in transit, everything handed out arrived:
+   what the client stream yielded is itself that prefix — nothing lost, nothing repeated, across any number of
+   communication errors (request lost), disconnects and reconnects. *)
+Theorem C10_client_nothing_lost : forall pol cfg t0 n ops h items, no_raw ops = true ->
+  forallb (fun op => negb (reply_lost_on h op)) ops = true ->
+  let R := cafter pol cfg t0 n ops in
+  nth_error (copened (c_trace R)) (N.to_nat h) = Some items ->
+  received (c_trace R) h = taken (c_trace R) h /\ exists suffix, items = yields (received (c_trace R) h) ++ suffix.
+Proof. exact client_received_exact. Qed.
+Print Assumptions C10_client_nothing_lost.
+
+(* What next() on client stream h answers after any history: an item is the first item of its own list not yet
+   handed out; a re-raised error is the error its own list raises at exactly that position; StopIteration comes
+   from an iterator object that has dropped its proxy, or means its own list is exhausted and fully handed out. *)
+Theorem C10_client_next_answer : forall pol cfg t0 n ops h, no_raw ops = true ->
+  let R := crun pol cfg (cinit t0 n) ops in
+  match snd (fst (cstep pol cfg (c_state R) (CNext h))) with
+  | CItem v => exists items r, nth_error (copened (c_trace R)) (N.to_nat h) = Some items /\
+                               items = yields (taken (c_trace R) h) ++ Yield v :: r
+  | CStop => iter_ready (c_state R) h = Dropped \/
+             nth_error (copened (c_trace R)) (N.to_nat h) = Some (yields (taken (c_trace R) h))
+  | CRaised e => exists items r, nth_error (copened (c_trace R)) (N.to_nat h) = Some items /\
+                                 items = yields (taken (c_trace R) h) ++ Raise e :: r
+  | _ => True
+  end.
+Proof. exact client_next_answer. Qed.
+Print Assumptions C10_client_next_answer.
+
+(* StopIteration exactly at exhaustion: with the extracted except-clause, next() raises StopIteration only if the
+   stream's own list is exhausted and fully handed out, or the stream object ended before (an earlier StopIteration,
+   or close()) — in particular never because of a communication error or a re-raised exception. *)
+Theorem C10_client_stop_exact : forall cfg t0 n ops h, no_raw ops = true ->
+  let R := cafter gen_policy cfg t0 n ops in
+  snd (fst (cstep gen_policy cfg (c_state R) (CNext h))) = CStop ->
+  ended (c_trace R) h = true \/ nth_error (copened (c_trace R)) (N.to_nat h) = Some (yields (taken (c_trace R) h)).
+Proof. exact (fun cfg t0 n ops h => client_stop_exact gen_policy cfg t0 n ops h eq_refl eq_refl eq_refl). Qed.
+Print Assumptions C10_client_stop_exact.
+
+(* ... and ever after: once next() on a client stream answered StopIteration, it does so on every later call,
+   whatever else happens (from any client state). *)
+Theorem C10_client_stop_ever_after : forall cfg cs h op ops, asks h op = true ->
+  snd (fst (cstep gen_policy cfg cs op)) = CStop ->
+  forall e, In e (c_trace (crun gen_policy cfg (fst (fst (cstep gen_policy cfg cs op))) ops)) ->
+            asks h (fst e) = true -> snd e = CStop.
+Proof. exact (fun cfg cs h op ops => stop_ever_after gen_policy cfg cs h op ops eq_refl). Qed.
+Print Assumptions C10_client_stop_ever_after.
+
+(* A generator's exception is re-raised once and the stream is then ended: after next() re-raised (or reported the
+   stream terminated), no later next() on that stream object ever yields an item or raises a generator error again. *)
+Theorem C10_client_raise_once : forall pol cfg t0 n ops h ops',
+  let cs := c_state (cafter pol cfg t0 n ops) in
+  match snd (fst (cstep pol cfg cs (CNext h))) with CRaised _ | CError => True | _ => False end ->
+  forall e, In e (c_trace (crun pol cfg (fst (fst (cstep pol cfg cs (CNext h)))) ops')) ->
+            asks h (fst e) = true -> no_item (snd e).
+Proof. exact client_failed_then_ended. Qed.
+Print Assumptions C10_client_raise_once.
+
+(* Communication error in the middle of next() (request lost), clock ticks and housekeeping within linger and
+   lifetime, reconnect: next() answers "connection closed" until the reconnect, and after it yields exactly the
+   next item not yet handed out — with the extracted except-clause, which must not drop the proxy on that error. *)
+Theorem C10_client_resume_after_comm_error : forall cfg t0 n ops h it p px c s v r mid, 0 < linger cfg ->
+  let cs := c_state (cafter gen_policy cfg t0 n ops) in
+  iter_ready cs h = Ready it p px c ->
+  lookup (ci_sid it) (tbl (srv cs)) = Some s -> owner s = Some c -> rest s = Yield v :: r ->
+  forallb is_time mid = true ->
+  within (linger_strict cfg) (linger cfg) (ticks (flat_map time_event mid)) = true ->
+  (lifetime cfg = 0 \/
+   within (lifetime_strict cfg) (lifetime cfg) (now (srv cs) + ticks (flat_map time_event mid) - created s) = true) ->
+  let S1 := cstep gen_policy cfg cs (CNextFault h ReqLost) in
+  let cs2 := c_state (crun gen_policy cfg (fst (fst S1)) mid) in
+  let cs3 := fst (fst (cstep gen_policy cfg cs2 (CReconnect p))) in
+  snd (fst S1) = CCommErr None /\
+  snd (fst (cstep gen_policy cfg cs2 (CNext h))) = CClosedLocal /\
+  snd (fst (cstep gen_policy cfg cs3 (CNext h))) = CItem v.
+Proof. exact (fun cfg t0 n ops h it p px c s v r mid => client_resume_reach gen_policy cfg t0 n ops h it p px c s v r mid eq_refl). Qed.
+Print Assumptions C10_client_resume_after_comm_error.
 
 (* non-vacuity, with the configuration and comparisons generated from the source (defaults: linger 30 s) *)
 Definition ex_hist : list event :=
@@ -157,3 +258,20 @@ Example C10_nonvacuous_all_finished :
   let evs := ex_hist ++ [Next 0 0; Next 0 0; CloseStream 3 1] in
   wf_from 0 evs = true /\ forallb (finished (snd (run default_config (init 1000) evs))) [0; 1] = true.
 Proof. vm_compute. auto. Qed.
+
+(* client side: two proxies, two streams interleaved, a communication error in the middle, reconnect, exhaustion *)
+Definition ex_ops : list cop :=
+  [COpen 0 [Yield 7; Yield 8; Yield 9]; COpen 1 [Yield 1; Raise 5]; CNext 0; CNext 1; CNextFault 0 ReqLost; CNext 0;
+   CTick 10; CHousekeep; CReconnect 0; CNext 0; CNext 1; CNext 1; CNext 0; CNext 0; CNext 0].
+Example C10_nonvacuous_client :
+  no_raw ex_ops = true /\
+  map snd (c_trace (cafter gen_policy default_config 1000 2 ex_ops)) =
+  [COpened 0; COpened 1; CItem 7; CItem 1; CCommErr None; CClosedLocal; CNone; CNone; CNone; CItem 8;
+   CRaised 5; CError; CItem 9; CStop; CStop] /\
+  received (c_trace (cafter gen_policy default_config 1000 2 ex_ops)) 0 = [7; 8; 9].
+Proof. vm_compute. auto. Qed.
+Example C10_nonvacuous_client_resume :
+  let cs := c_state (cafter gen_policy default_config 1000 1 [COpen 0 [Yield 7; Yield 8]; CNext 0]) in
+  exists it px s, iter_ready cs 0 = Ready it 0 px 0 /\ lookup (ci_sid it) (tbl (srv cs)) = Some s /\
+                  owner s = Some 0 /\ rest s = [Yield 8].
+Proof. vm_compute. eexists. eexists. eexists. repeat split. Qed.
